@@ -105,6 +105,9 @@ class World:
             return isinstance(v, tuple)
         if what.endswith("Integral") or what.endswith("int"):
             return isinstance(v, int) and not isinstance(v, bool)
+        _r = __import__("pv.absint", fromlist=["x"]).default_isinstance(v, c)
+        if _r is not None:
+            return _r
         raise AnalysisError(f"isinstance(..., {c!r})")
 
     def single_valued(self, it, node, args, kw):
